@@ -37,7 +37,8 @@ def snip_case(draw):
     tiny = 0.0
     if n < N - i and form in ("float", "int") and draw(st.integers(0, 9)) == 0:
         tiny = draw(st.sampled_from([1e-9, 1e-12, 3e-9, 1e-7]))  # a start a hair after a whole sample
-    return {"sig": spec, "form": form, "i": i, "frac": frac, "n": n, "dur_unit": draw(st.sampled_from(["s", "ms", "us", "ns", "min"])), "tiny": tiny}
+    return {"sig": spec, "form": form, "i": i, "frac": frac, "n": n, "dur_unit": draw(st.sampled_from(["s", "ms", "us", "ns", "min"])), "tiny": tiny,
+            "ik": draw(st.sampled_from(["int64", "int8", "uint8", "int16", "uint32", "uint64", "intp"]))}
 
 
 def to_arg(case, z):
@@ -48,7 +49,8 @@ def to_arg(case, z):
     if form in ("npint", "npfloat", "arr0"):
         # NumPy scalars / 0-d arrays are numbers too
         if case["frac"] == 0 and form == "npint":
-            return np.int64(int(t)), t, True
+            ik = case.get("ik", "int64")
+            return getattr(np, ik if int(t) <= np.iinfo(ik).max else "int64")(int(t)), t, True
         v = float(t)
         return (np.float64(v) if form != "arr0" else np.array(v)), t, case["frac"] == 0
     if case.get("tiny") and form in ("int", "float"):
@@ -232,8 +234,19 @@ def long_case(draw):
 def bad_case(draw):
     spec = draw(G.signal_spec(nmin=1, nmax=32, dtypes=FLOATS, nchan_max=2, max_trailing=1))
     N = spec["n"]
-    kind = draw(st.sampled_from(["neg_t", "past_end", "neg_n", "time_nostart", "past_end_frac", "neg_t_dur", "past_end_time"]))
-    return {"sig": spec, "kind": kind, "n": draw(st.integers(0, N)), "k": draw(st.integers(1, 5)), "f": draw(st.integers(1, 1023))}
+    kind = draw(st.sampled_from(["neg_t", "past_end", "neg_n", "time_nostart", "past_end_frac", "neg_t_dur", "past_end_time", "past_end_narrow", "past_end_narrow",
+                                 "inf_t", "inf_dur", "neg_inf_t", "neg_inf_dur"]))
+    out = {"sig": spec, "kind": kind, "n": draw(st.integers(0, N)), "k": draw(st.integers(1, 5)), "f": draw(st.integers(1, 1023))}
+    if kind == "past_end_narrow":
+        # t as a narrow NumPy integer: t + n must not wrap around in t's own width
+        ik = draw(st.sampled_from(["uint8", "int8", "uint8", "int16", "uint16"]))
+        top = {"uint8": 255, "int8": 127, "int16": 32767, "uint16": 65535}[ik]
+        N2 = draw(st.integers(40, 300))
+        t = draw(st.integers(0, min(N2, top)))
+        lo = max(N2 - t + 1, top - t + 1)
+        n = draw(st.one_of(st.integers(N2 - t + 1, N2 + 300), st.integers(lo, lo + 40)))
+        out.update(sig=dict(spec, n=N2), ik=ik, t=t, n=n, n_np=draw(st.booleans()))
+    return out
 
 
 def run_bad(case, stt):
@@ -259,6 +272,16 @@ def run_bad(case, stt):
         f = lambda: pb.snippet(z, z.start_time + ((N - n + k) / z.sample_rate), n)  # noqa
     elif kind == "neg_n":
         f = lambda: pb.snippet(z, 0, -k)  # noqa
+    elif kind == "past_end_narrow":
+        tt = getattr(np, case["ik"])(case["t"])
+        nn = getattr(np, case["ik"])(n) if case["n_np"] and n <= np.iinfo(case["ik"]).max else n
+        assert int(tt) + int(nn) > N and int(tt) >= 0
+        f = lambda: pb.snippet(z, tt, nn)  # noqa
+        stt.label("narrow_sum_wraps" if int(tt) + int(nn) > np.iinfo(case["ik"]).max else "narrow_sum_fits")
+    elif kind in ("inf_t", "neg_inf_t"):
+        f = lambda: pb.snippet(z, math.inf if kind == "inf_t" else -math.inf, n)  # noqa
+    elif kind in ("inf_dur", "neg_inf_dur"):
+        f = lambda: pb.snippet(z, (math.inf if kind == "inf_dur" else -math.inf) * u.s, n)  # noqa
     else:
         f = lambda: pb.snippet(z, G.mk_time({"mjd": 58000, "frac": 0.5}), n)  # noqa
     must_raise("snippet " + kind, f, (ValueError,))
@@ -277,6 +300,6 @@ SUBS = [
     Sub("long_signals", long_case(), run_snip,
         "N in {1500..5000}, short and long snippets anywhere in the signal, fractional starts (numpy.fft complex128 interpolation of the WHOLE "
         "signal as reference); non-trivial as above", quick=300, thorough=5000, pieces_quick=4),
-    Sub("refusals", bad_case(), run_bad, "t < 0, t+n > len (whole, fractional, as Time), negative n, Time without start time -> ValueError", quick=300,
+    Sub("refusals", bad_case(), run_bad, "t < 0, t+n > len (whole, fractional, as Time, as a narrow NumPy integer whose sum with n would wrap, +-infinity as number or duration), negative n, Time without start time -> ValueError", quick=300,
         thorough=4000),
 ]
